@@ -197,3 +197,6 @@ def run(ctx):
     r2(ctx)
     r3(ctx)
     r4(ctx)
+    import rules.C05 as c05
+    ctx.borrow(c05.r6, {'C05.R6': 'C06.R5'},
+               'dates round-trip because the two day-count conversions are both the standard algorithm and therefore inverse')
